@@ -1,6 +1,6 @@
 (* C21 — property theorems only: each closed by [exact lemma], followed by Print Assumptions. *)
 From Coq Require Import List NArith ZArith Bool.
-From Verif Require Import Common.Rose C21.Model C21.Proof C21.Examples.
+From Verif Require Import Common.Rose C21.Model C21.Proof C21.Examples C21.Fresh C21.Equiv.
 Import ListNotations.
 Open Scope Z_scope.
 
@@ -39,6 +39,63 @@ Theorem C21_fast_eq_classic_refuted :
   differ W_paren [] /\ differ W_block env_bv /\ differ W_short env_le1 /\ differ W_empty [].
 Proof. exact (conj differ_paren (conj differ_block (conj differ_short differ_empty))). Qed.
 Print Assumptions C21_fast_eq_classic_refuted.
+
+(* C21_fresh_tree — node identities.  [mk] labels every object the algorithms allocate (New(), MakeQuote, the
+   coercion wrappers of Set/Append).  For the fast algorithm AND the classic one (as modelled after fix 38da465), for
+   EVERY template, fuel and evaluator: each node identity of the result was allocated by the algorithm or is a node of
+   a VALUE an unquoted expression evaluated to — those values are inserted by reference, not copied; that is the only
+   sharing the code allows.  No hypothesis on the template. *)
+Theorem C21_fresh_tree : forall mk ev fuel u r,
+  fast_qq mk ev fuel u = Ok (Some r) \/ classic_qq mk ev fuel u = Ok (Some r) ->
+  forall j, In j (ids r) ->
+    (exists i, j = mk i) \/ (exists x v, ev x = Ok (Some v) /\ In j (ids v)).
+Proof. exact fresh_tree. Qed.
+Print Assumptions C21_fresh_tree.
+
+(* ... hence, when allocation never returns an object of the template, the result shares no node with the template
+   except inside unquoted values *)
+Theorem C21_fresh_tree_no_sharing : forall mk ev fuel u r,
+  (forall i, ~ In (mk i) (ids u)) ->
+  fast_qq mk ev fuel u = Ok (Some r) \/ classic_qq mk ev fuel u = Ok (Some r) ->
+  forall j, In j (ids r) -> In j (ids u) -> exists x v, ev x = Ok (Some v) /\ In j (ids v).
+Proof. exact fresh_tree_no_sharing. Qed.
+Print Assumptions C21_fresh_tree_no_sharing.
+
+(* sharpness: ~quasiquote{f(~unquote{v})} — template ids 0, allocator range >= 1000, the value's node 77 IS in the result *)
+Example C21_ex_value_shared :
+  (forall i, ~ In (mk_1000 i) (ids sh_tmpl)) /\
+  exists r, fast_qq mk_1000 (ev_of sh_env) 40 sh_tmpl = Ok (Some r) /\
+            classic_qq mk_1000 (ev_of sh_env) 40 sh_tmpl = Ok (Some r) /\
+            In 77%N (ids r) /\ ~ In 0%N (ids r).
+Proof. exact fresh_example. Qed.
+
+(* C21_fast_eq_classic, partial: on FLAT templates (C21/Equiv.v: no nested ~quote/~quasiquote form outside unquoted
+   expressions, every unquote a chain of length one, no trivial wrapper directly inside another or around a block
+   [excludes C21-paren], body not a single ~unquote_splice [excludes C21-top-splice-short]; C21-nested-block and
+   C21-nested-empty-body need a nested quote form and are outside by construction) a successful classic run is matched
+   by the fast algorithm for every larger fuel, with the same tree (ids erased; they differ only for the empty template).
+   Missing for the full statement: templates WITH nested quote forms (depth >= 2), where besides the four known
+   shapes the models also differ on the shapes of C21_fast_eq_classic_refuted_more; and the converse direction
+   (fast succeeds => classic succeeds) which is false when an unquote in a list position evaluates to nil or a
+   splice sits in a non-list slot (classic rejects, fast accepts). *)
+Theorem C21_fast_eq_classic_partial : forall mk ev f f' u b,
+  FlatTemplate u -> (f < f')%nat ->
+  classic_qq mk ev f u = Ok (Some b) ->
+  exists a, fast_qq mk ev f' u = Ok (Some a) /\ erase a = erase b.
+Proof. exact fast_eq_classic_flat. Qed.
+Print Assumptions C21_fast_eq_classic_partial.
+
+(* the class is inhabited by a template with ~unquote and ~unquote_splice in call-argument and statement positions *)
+Example C21_ex_flat :
+  FlatTemplate fl_tmpl /\
+  exists b, classic_qq mk0 (ev_of fl_env) 20 fl_tmpl = Ok (Some b) /\ fast_qq mk0 (ev_of fl_env) 21 fl_tmpl = Ok (Some b).
+Proof. exact (conj fl_tmpl_flat fl_tmpl_runs). Qed.
+
+(* more shapes (all with nested forms or double parentheses, i.e. outside the flat class) on which the models differ *)
+Theorem C21_fast_eq_classic_refuted_more :
+  differ W_litblock [] /\ differ W_deepsplice_nonlist env1 /\ differ W_paren2 [].
+Proof. exact differ_more. Qed.
+Print Assumptions C21_fast_eq_classic_refuted_more.
 
 (* nested quasiquotes: the innermost unquote pairs with the outermost quasiquote, in both interpreters *)
 Example C21_ex_pairing :
